@@ -61,7 +61,9 @@ Judge == tid # 0 => (/\ \A cl \in Clauses : Holds(cl, tid) \/ PrintT(<<"FAIL", t
 (* conformance: the model's Guess on the recorded candidates and year gives the recorded guess *)
 Conform == (tid # 0 /\ T(tid).raised = "") =>
    (\A k \in DOMAIN T(tid).def : LET c == T(tid).def[k]  tr == T(tid) IN
-        c.res => LET g == Guess({EdOf(tr, x) : x \in SetOf(c.exact)}, {EdOf(tr, x) : x \in SetOf(c.var)}, c.year)
+        \* (a parallel citation inherits its year AFTER its edition was guessed: its year at guess time is
+        \*  not recorded, so its guess is not recomputed)
+        (c.res /\ Own(T(tid).def, k)) => LET g == Guess({EdOf(tr, x) : x \in SetOf(c.exact)}, {EdOf(tr, x) : x \in SetOf(c.var)}, c.year)
                  IN (IF g = NoGuess THEN "" ELSE g.id) = c.guess)
    \/ PrintT(<<"DRIFT", tid>>)
 Done == tid # 0 => PrintT(<<"DONE", tid>>)
